@@ -621,3 +621,51 @@ var numericNames = []string{"1", "01", "2", "10", "1.0", "02", "1e0", "001", "3"
 func wideDraw(v int, often bool) bool {
 	return v == 29 || v == 37 || v == 11 || v == 47 || (often && v%8 == 3)
 }
+
+// RootOnBranch returns m in a rooted presentation: a root of degree two is put in the middle of a
+// drawn branch (its length cut into two halves), the former root is suppressed if it is left with
+// two neighbours. The unrooted tree is the same.
+func RootOnBranch(t *rapid.T, m *ref.Node) *ref.Node {
+	c := m.Clone()
+	all := c.All()
+	if len(all) < 2 {
+		return c
+	}
+	x := all[rapid.IntRange(1, len(all)-1).Draw(t, "rootbranch")]
+	p := c.Parents()[x]
+	mid := &ref.Node{Ch: []*ref.Node{x}}
+	if x.Len != nil {
+		half := *x.Len / 2
+		mid.Len = ref.F(half)
+		x.Len = ref.F(half)
+	}
+	for i, ch := range p.Ch {
+		if ch == x {
+			p.Ch[i] = mid
+		}
+	}
+	r := ref.RerootAt(c, mid)
+	var fix func(n *ref.Node)
+	fix = func(n *ref.Node) {
+		for i, c := range n.Ch {
+			for !c.IsTip() && len(c.Ch) == 1 {
+				g := c.Ch[0]
+				if c.Len != nil || g.Len != nil {
+					s := 0.0
+					if c.Len != nil {
+						s += *c.Len
+					}
+					if g.Len != nil {
+						s += *g.Len
+					}
+					g.Len = ref.F(s)
+				}
+				c = g
+				n.Ch[i] = g
+			}
+			fix(c)
+		}
+	}
+	fix(r)
+	return r
+}
